@@ -54,6 +54,9 @@ impl<R: Read + Seek> ReadBox<&mut R> for DinfBox {
                     "dinf box contains a box with a larger size than it",
                 ));
             }
+            if s == 0 {
+                return Err(Error::InvalidData("dinf box contains a box with size 0"));
+            }
 
             match name {
                 BoxType::DrefBox => {
@@ -165,6 +168,9 @@ impl<R: Read + Seek> ReadBox<&mut R> for DrefBox {
                 return Err(Error::InvalidData(
                     "dinf box contains a box with a larger size than it",
                 ));
+            }
+            if s == 0 {
+                return Err(Error::InvalidData("dref box contains a box with size 0"));
             }
 
             match name {
